@@ -28,6 +28,8 @@ sys.path.insert(0, ROOT)
 import weaver  # noqa: E402
 
 CACHE_DIR = os.path.join(ROOT, '.cache')
+# runs against a scratch copy of the repository (QV_REPO=...) never touch the registered evidence/replay files
+OUT_ROOT = ROOT if REPO == '/repo' else os.path.join(tempfile.gettempdir(), 'qv_alt_out')
 JOBS = int(os.environ.get('QV_JOBS', '16'))
 
 STD_INCLUDES = ['-I' + os.path.join(ROOT, 'include'), '-I' + os.path.join(ROOT, 'harness'),
@@ -663,7 +665,7 @@ def check_property(prop, tier, groups, propmeta, seed=0):
     wss += [{'witness': None, 'note': 'witness search skipped: more than %d groups failed in this run' % LIMIT}] * max(0, len(viol) - LIMIT)
     for (r, vi), ws in zip(viol, wss):
         g = r['group']
-        rdir = os.path.join(ROOT, 'replays', prop)
+        rdir = os.path.join(OUT_ROOT, 'replays', prop)
         os.makedirs(rdir, exist_ok=True)
         path = os.path.join(rdir, re.sub(r'[^\w.@=-]', '_', g['name']) + '.json')
         rep = {
@@ -698,7 +700,7 @@ def check_property(prop, tier, groups, propmeta, seed=0):
 
 
 def write_evidence(prop, tier, seed, per_group, n_ob, n_ok, nviol, known, propmeta, wall, results):
-    os.makedirs(os.path.join(ROOT, 'evidence'), exist_ok=True)
+    os.makedirs(os.path.join(OUT_ROOT, 'evidence'), exist_ok=True)
     pm = propmeta.get(prop, {})
     proved = [p['group'] for p in per_group if p['strength'] == 'proof' and p['status'] == 'ok']
     bounded = [{'group': p['group'], 'bound': p['bound']} for p in per_group if p['strength'] == 'bounded']
@@ -738,7 +740,7 @@ def write_evidence(prop, tier, seed, per_group, n_ob, n_ok, nviol, known, propme
         'wall_s': round(wall, 2),
         'violations': nviol,
     }
-    json.dump(ev, open(os.path.join(ROOT, 'evidence', prop + '.json'), 'w'), indent=1)
+    json.dump(ev, open(os.path.join(OUT_ROOT, 'evidence', prop + '.json'), 'w'), indent=1)
 
 
 def replay_file(path):
